@@ -12,6 +12,7 @@ import (
 	"fmt"
 	"os"
 	"strconv"
+	"strings"
 	"time"
 
 	plugin "github.com/hashicorp/go-plugin"
@@ -71,6 +72,10 @@ func main() {
 	if c.Impostor != "" {
 		if os.Getenv(c.CookieKey) != c.CookieValue {
 			os.Exit(1)
+		}
+		if strings.HasPrefix(c.Impostor, "handmade-") {
+			handmade(&c)
+			return
 		}
 		impostor(&c)
 		return
